@@ -166,7 +166,7 @@ def simplex_qp(rng, n):
     return prob, np.zeros(n), {}
 
 
-def boxdomain_problem(rng, n, m, fmt="coo", int_cons_bounds=False):
+def boxdomain_problem(rng, n, m, fmt="coo", int_cons_bounds=False, interior=False):
     """Smooth non-convex problem whose objective is only defined on the box (power terms)."""
     xl = rng.uniform(-1.0, 0.0, size=n)
     xu = xl + rng.uniform(0.5, 2.0, size=n)
@@ -184,7 +184,10 @@ def boxdomain_problem(rng, n, m, fmt="coo", int_cons_bounds=False):
     cl[eq] = cu[eq] = cf[eq]
     prob = GenProblem(Q, c, A, D, np.zeros(m), cl, cu, xl, xu, w=w, fmt=fmt, int_cons_bounds=int_cons_bounds)
     x0 = rng.uniform(xl, xu)
-    if rng.uniform() < 0.3:
+    if interior:
+        # well inside the box: the (x - xl)^2.5 terms have an unbounded third derivative at the bound
+        x0 = xl + (0.25 + 0.5 * rng.uniform(size=n)) * (xu - xl)
+    elif rng.uniform() < 0.3:
         x0[0] = xl[0]
     return prob, x0, {}
 
